@@ -98,6 +98,9 @@ impl VCursor {
 
     pub fn new(v: Vec<u8>) -> (r: VCursor) ensures r.v@ == v@, r.p == 0 { VCursor { v, p: 0 } }
     pub fn position(&self) -> (r: u64) ensures r == self.p { self.p }
+    pub fn get_ref(&self) -> (r: &Vec<u8>) ensures r@ == self.v@ { &self.v }
+    pub fn get_mut(&mut self) -> (r: &mut Vec<u8>) ensures *r == old(self).v, final(self).v == *final(r), final(self).p == old(self).p { &mut self.v }
+    pub fn into_inner(self) -> (r: Vec<u8>) ensures r@ == self.v@ { self.v }
     pub fn set_position(&mut self, p: u64) ensures final(self).p == p, final(self).v == old(self).v { self.p = p; }
     /// cursor.get_mut().clear()  [rewrite R11]: the vector is emptied, the position is NOT reset
     pub fn vclear(&mut self) ensures final(self).v@.len() == 0, final(self).p == old(self).p { self.v.clear(); }
